@@ -118,6 +118,12 @@ type C02Params struct {
 	NoBack   bool     `json:"nobackoff,omitempty"`
 	MTU      int      `json:"mtu,omitempty"`
 	Enum     string   `json:"enum,omitempty"`
+	// ServerFlightMs / ServerNoBack: the server's timer settings where they differ from the
+	// client's (FlightMs / NoBack then apply to the client only)
+	ServerFlightMs int  `json:"server_flight_ms,omitempty"`
+	ServerNoBack   bool `json:"server_nobackoff,omitempty"`
+	// CancelOnReturn: each side cancels its handshake context as soon as HandshakeContext returned
+	CancelOnReturn bool `json:"cancel_on_return,omitempty"`
 }
 
 // liveness bound after the last fault: F flights of at most one capped timeout each.
@@ -203,6 +209,15 @@ func c02Gen(r *rand.Rand, tier string, idx int) any {
 		if r.IntN(3) == 0 {
 			p.MTU = []int{64, 100, 200, 300, 600, 1200}[r.IntN(6)]
 		}
+		if r.IntN(4) == 0 { // unequal timers: one side's retransmissions arrive inside the other's interval
+			p.FlightMs = []int{100, 300, 1000, 2000}[r.IntN(4)]
+			p.ServerFlightMs = []int{20, 60, 150, 4000}[r.IntN(4)]
+			p.NoBack, p.ServerNoBack = r.IntN(3) == 0, r.IntN(2) == 0
+		}
+		p.CancelOnReturn = r.IntN(3) == 0
+	}
+	if idx < dropSpace {
+		p.CancelOnReturn = (idx/nv)%3 == 1
 	}
 
 	return p
@@ -253,7 +268,11 @@ func c02Run(rc *RunCtx, params any) {
 	}
 	rc.R.Class = v.Name
 	applyKnobs(&v.C, p.FlightMs, p.NoBack, p.MTU)
-	applyKnobs(&v.S, p.FlightMs, p.NoBack, p.MTU)
+	if p.ServerFlightMs > 0 {
+		applyKnobs(&v.S, p.ServerFlightMs, p.ServerNoBack, p.MTU)
+	} else {
+		applyKnobs(&v.S, p.FlightMs, p.NoBack, p.MTU)
+	}
 	env := &Env{Stores: map[string]dtls.SessionStore{}}
 	if v.Resume {
 		env.Stores["cstore"] = NewSimStore(s, "cstore", 0)
@@ -273,6 +292,7 @@ func c02Run(rc *RunCtx, params any) {
 	// liveness is decided by the step budget (no progress in virtual time), not by how many
 	// datagrams a handshake costs: emission storms that still complete are C17's business
 	s.MaxEmits = 0
+	pair.CancelOnReturn = p.CancelOnReturn
 	pair.StartHandshakes(0)
 	for {
 		limit := n.LastFaultAt + c02Bound
